@@ -573,3 +573,7 @@ def run(ctx):
     run_spellings(ctx, c, res)
     run_end(ctx, c)
     run_forwarders(ctx, c)
+    # ---------------- R1.8 the server-side behaviour wrapper forwards every serde method to the same-named method
+    from . import c05
+    ctx.include(c05, {"R5.1"}, "R1.8", "values decoded by the server deserializers must equal those of the client deserializers (a behaviour method forwarding to a different inner method changes the decoded value on the server only)")
+
